@@ -122,7 +122,9 @@ CLAIMED = {
     "C19": c(REF + "Props/C19.v: the trie store has 1 + sum over the known LRUs of nblk(last stem) blocks (nblk = max 1 ceil(len/74)), the link store two "
              "stubs per submitted link; a request that makes nothing newly known allocates nothing; metrics page figures agree. On the insertion path "
              "translated from the source on every run (GenTrieW.v: LRUTrie.add_lru / add_page over the translated sibling insertion and node write): "
-             "the storage ends holding exactly the trie file of the model's next state, for every history and every LRU.", T_REF, "DESIGN.md section 6 C19"),
+             "the storage ends holding exactly the trie file of the model's next state, for every history and every LRU; the integer figures of the "
+             "translated LRUTrie.metrics() (GenTrieM.v, floating-point averages sliced away) are the model's, its page figures the specification's "
+             "(C19_source_metrics).", T_REF, "DESIGN.md section 6 C19"),
     "C20": c(REF + "Props/C20.v: the answer has min(k, n) entries among the webentity's pages within the depth limit, in non-increasing order, no omitted "
              "page has a larger reported indegree, reported indegree = distinct in-sources except that 0 is reported as 1 (defect F7: "
              "C20_zero_reported_one / C20_refuted_F7; the model mirrors the code, the oracle separates this known finding from any other). On the "
